@@ -175,6 +175,19 @@ def main():
     rc3, _, _ = nnvg(work, base + ['--dry-run', root])
     res['modes']['over_existing'] = {'rc': [rc2, rc3], 'fs_diff': snap_diff(s5, snapshot(work))[:20], 'listing': split_list(out2)}
 
+    # a second real run over the output of the first (succeeds and keeps the file set; fails with --no-overwrite)
+    rc4, _, err4 = nnvg(work, base + [root])
+    s6 = snapshot(work)
+    res['modes']['rerun'] = {'rc': rc4, 'files_changed': sorted(k for k in set(s5) | set(s6) if (k in s5) != (k in s6))[:20],
+                             'stderr': err4[-200:] if rc4 != 0 else ''}
+    if job.get('list_configuration'):
+        s7 = snapshot(work)
+        rcs = []
+        for extra in (['--list-configuration'], ['--list-configuration', '--dry-run']):
+            rc5, out5, _ = nnvg(work, base + extra + [root])
+            rcs.append(rc5)
+        res['modes']['list_configuration'] = {'rc': rcs, 'fs_diff': snap_diff(s7, snapshot(work))[:20], 'stdout_len': len(out5)}
+
     if job.get('want_trace', True):
         targs = list(job['args']) + ['-O', 'out_trace'] + [x for lk in job.get('lookups', []) for x in ('-I', lk)] + [root]
         p = subprocess.run([PY, '-c', TRACE_SCRIPT] + targs, cwd=work, stdout=subprocess.PIPE, stderr=subprocess.STDOUT, text=True, timeout=120)
